@@ -33,9 +33,13 @@
 //! Not covered: redundant, load_balancer (random probing => executions are not
 //! reproducible), the `Queries` table in isolation (type is private; it is
 //! driven through the stream transport instead, including slot recycling).
-//! stream.rs measures its response and idle timeouts with std::time::Instant,
-//! which the paused tokio clock does not move: every stream scenario ends by
-//! an answer, an error or EOF, never by the response timeout.
+//! Built with the /repo feature `verif-hooks`, under which stream.rs measures
+//! its response and idle timeouts on tokio's clock: the stream harness has
+//! "time passes" actions (to just below / exactly / just above the idle
+//! timeout, just below / just above the response timeout), silent-peer cases
+//! and cases that submit a request after an idle gap. A stream request's
+//! budget is response_timeout (+1 ms: timer resolution, strict comparison)
+//! from its submission.
 use bytes::Bytes;
 use domain::base::Message;
 use domain::net::client::protocol::{AsyncConnect, AsyncDgramRecv, AsyncDgramSend};
@@ -2319,7 +2323,9 @@ fn main() {
         }),
         &[
             "at most 3 deviations from the default environment per execution (2 in quick); at most 3 concurrent requests (one 6-request two-wave stream case with 4 concurrent)",
-            "stream: net/client/stream.rs measures response and idle timeouts with std::time::Instant, so the response timeout is NOT exercised under the paused clock; every stream scenario ends by answer, error or EOF; 'Err within the budget' is checked only for dgram, multi_stream and dgram_stream",
+            "stream timeouts run on tokio's paused clock (feature verif-hooks of /repo); budget of a stream request = response_timeout + 1 ms from submission (1 ms timer resolution and the transport's strict `elapsed > response_timeout`)",
+            "the time step that lands exactly on timer start + 19 s (effective response timeout) is not offered: Transport::run then loops on a zero-length sleep until the clock moves, which never happens under the frozen clock (artefact of the paused clock, not counted as a violation); step lengths are chosen so that no sum of steps hits that instant; a watchdog (30 s) reports any execution that does not terminate",
+            "main stream timing cases configure response_timeout = 19 s (the library default) and idle_timeout = 300 ms; two cases configure 1 s to check that the configured value is honoured",
             "redundant and load_balancer are not covered (rand-based probing makes executions irreproducible); the private Queries table is driven only through the stream transport",
             "random request IDs (dgram) are read back from the bytes written; stale/wrong IDs sent by the mock are forced to differ from the current ID so the execution structure does not depend on the random draw",
             "multi_stream/dgram_stream: virtual time advances in 64 s steps (>= any random retry delay), so retry jitter does not influence outcomes; connect refusal is offered only with a single caller (a second caller's NewConn inside the random error window would be nondeterministic)",
